@@ -139,6 +139,10 @@ def emission_hook(w, st, node, name, recv, args):
 
 def container_hook(w, st, node, name, recv, args):
     """push/insert into a field of self: remember what was stored."""
+    if node.get("k") == "mcall" and name in ("remove", "get", "get_mut", "take", "entry", "cloned", "clone", "drain", "remove_entry"):
+        r = node["recv"]
+        if r.get("k") == "field" and r["base"].get("k") == "path" and r["base"]["segs"] == ["self"]:
+            st.events.append({"kind": "fieldread", "field": r["name"], "method": name, "node": node})
     if node.get("k") == "mcall" and name in ("push", "insert"):
         r = node["recv"]
         if r.get("k") == "field" and r["base"].get("k") == "path" and r["base"]["segs"] == ["self"]:
@@ -194,6 +198,10 @@ def predicate_hook(w, st, node, name, recv, args):
     if fname not in preds:
         return None
     i, may_true = preds[fname]
+    # a predicate that also takes the flag knowledge is a *consumer* of it
+    callee = [f for f in w.facts.fns_named(fname) if not f["qual"]]
+    if callee and any(norm_ty(p["ty"]) == "FlagsState" for p in callee[0]["params"]):
+        st.events.append({"kind": "consume", "node": node, "what": fname, "arg": args[i] if i < len(args) else None, "may_true": frozenset(may_true)})
     if i >= len(args) or not isinstance(args[i], Sym):
         return None
     v = args[i]
